@@ -63,8 +63,9 @@ pub fn show_prog(prog: &Value) -> String { show_clauses(prog).join(" ") }
 #[derive(Debug, Clone, PartialEq)]
 pub struct Seg { pub out: String, pub some: bool, pub ans: Vec<Tm> }
 
-fn parse_expect(case: &Value) -> Vec<Seg> {
-    case["expect"].as_array().unwrap().iter().map(|s| Seg {
+fn parse_expect(case: &Value) -> Vec<Seg> { parse_expect_of(&case["expect"]) }
+pub fn parse_expect_of(expect: &Value) -> Vec<Seg> {
+    expect.as_array().unwrap().iter().map(|s| Seg {
         out: s["out"].as_array().unwrap().iter().map(|x| x.as_str().unwrap()).collect::<Vec<_>>().concat(),
         some: s["some"].as_bool().unwrap(),
         ans: s["ans"].as_array().unwrap().iter().map(tm_from_json).collect(),
@@ -120,7 +121,9 @@ pub fn run_query(kb: &KnowledgeBase, query: &Goal, n: usize) -> Run {
     run
 }
 
-fn show_segs(s: &[Seg]) -> String {
+pub fn strip_ids_pub(g: &Value) -> Value { strip_ids(g) }
+pub fn number_by_name_pub(t: &Tm) -> Tm { number_by_name(t) }
+pub fn show_segs(s: &[Seg]) -> String {
     s.iter().map(|g| format!("{}{}", if g.out.is_empty() { String::new() } else { format!("{:?}+", g.out) },
         if g.some { format!("({})", show_vec(&g.ans).replace(" ; ", ", ")) } else { "none".into() })).collect::<Vec<_>>().join(" ")
 }
